@@ -227,10 +227,17 @@ def boolify(v):
     raise Unsupported(f"truthiness of {v!r}")
 
 
+MERGE_COERCIONS = []      # contract modules may register (a, b) -> (a', b') | None to bring two kinds of value to one
+
+
 def merge_val(c, a, b, name="m"):
     """Value that is `a` when c holds and `b` otherwise."""
     if a is b:
         return a
+    for f_ in MERGE_COERCIONS:
+        r_ = f_(a, b)
+        if r_ is not None:
+            a, b = r_
     if a is None and b is None:
         return None
     if isinstance(a, ObjV) and a.cls == "__yields__" or isinstance(b, ObjV) and b.cls == "__yields__":
